@@ -169,6 +169,8 @@ def check_text(tid, lf_text, text, others, tier):
                 return
             if n.type in ('module', 'namespace') or n.line is None:
                 return
+            if not n.name.rstrip('=').isidentifier():
+                return          # '<lambda>' and friends are not identifier tokens
             out['names_checked'] += 1
             kinds.add((type(n).__name__, n.type, how))
             ls = lines_of(mp)
